@@ -66,7 +66,40 @@ fn case(cx: &mut Ctx, id: bool, t: u64, memlimit: usize, outlen: usize, pw: &[u8
     cx.cover("m_mod4", &format!("{}", m_kib % 4));
 }
 
+/// the three presets (and the default) name libsodium's limits: read from the serialised configuration, no hashing
+fn presets(cx: &mut Ctx) {
+    if !cx.mine(424_242) {
+        return;
+    }
+    use libsodium_sys as ffi;
+    let want: [(&str, Config, u64, usize); 4] = unsafe {
+        [
+            ("interactive", Config::interactive(), ffi::crypto_pwhash_opslimit_interactive() as u64, ffi::crypto_pwhash_memlimit_interactive()),
+            ("moderate", Config::moderate(), ffi::crypto_pwhash_opslimit_moderate() as u64, ffi::crypto_pwhash_memlimit_moderate()),
+            ("sensitive", Config::sensitive(), ffi::crypto_pwhash_opslimit_sensitive() as u64, ffi::crypto_pwhash_memlimit_sensitive()),
+            ("default", Config::default(), ffi::crypto_pwhash_opslimit_interactive() as u64, ffi::crypto_pwhash_memlimit_interactive()),
+        ]
+    };
+    for (name, cfg, ops, mem) in want {
+        cx.eval();
+        let v = serde_json::to_value(&cfg).unwrap_or(serde_json::Value::Null);
+        let got_ops = v.get("opslimit").and_then(|x| x.as_u64());
+        let got_mem = v.get("memlimit").and_then(|x| x.as_u64());
+        let got_hl = v.get("hash_length").and_then(|x| x.as_u64());
+        let got_sl = v.get("salt_length").and_then(|x| x.as_u64());
+        if got_ops.is_none() || got_mem.is_none() {
+            cx.violation("HARNESS|C09|config_not_introspectable", json!({"preset":name,"serialised":v}));
+            continue;
+        }
+        if got_ops != Some(ops) || got_mem != Some(mem as u64) || got_hl != Some(32) || got_sl != Some(16) {
+            cx.violation(&format!("C09|Config::{}|preset_differs_from_libsodium_limits", name), json!({"serialised":v,"libsodium_opslimit":ops,"libsodium_memlimit":mem}));
+        }
+        cx.cover("preset", name);
+    }
+}
+
 pub fn run(cx: &mut Ctx) {
+    presets(cx);
     let mut idx = 0u64;
     let salt0: [u8; 16] = *b"0123456789abcdef";
 
